@@ -263,7 +263,7 @@ def run_unit(u, b, keep=None, trace=False, use_cache=True):
         # exactly those loops a sufficient bound, independent of the unit's own --unwind
         m = re.search(r'assigns clauses of at most (\d+) targets', so + se)
         if m and u.get('mode', 'dfcc') == 'dfcc':
-            nt = int(m.group(1)) + 2
+            nt = max(int(m.group(1)) + 3, int(u.get('unwind') or 0))
             rc2, so2, se2, _ = sh(['cbmc', igb, '--show-loops'], timeout=120)
             names = re.findall(r'^Loop (__CPROVER_contracts_\S+):', so2, re.M)
             for nm in names:
@@ -330,6 +330,9 @@ def run_unit(u, b, keep=None, trace=False, use_cache=True):
         if not can or any(o['status'] != 'FAILURE' for o in can):
             res['error'] = 'vacuity canary not reached: the unit\'s preconditions are unsatisfiable or the function ' \
                            'cannot return'
+        if any(o['cls'] == 'unwind' and o['status'] == 'FAILURE' for o in res['obligations']):
+            res['error'] = res['error'] or 'an unwinding assertion failed: the unwind bound of this unit is too small ' \
+                                           'for the code as it is now (undecided, not a violation)'
         if u.get('loops'):
             if not any(o['cls'] == 'loop' for o in res['obligations']):
                 res['error'] = 'loop contracts were requested but no loop obligation was generated'
@@ -393,6 +396,8 @@ def check_property(pid, tier, args):
         errors = [r for r in results if r['error']]
         obs, all_obs = [], {}
         for r in results:
+            if r['error']:
+                continue        # undecided unit: none of its verdicts is used
             for o in r['obligations']:
                 all_obs[ob_key(o) + '#' + o['id']] = o
                 if pid in o.get('props', []):
